@@ -133,6 +133,15 @@ func (p *C16) Gen(seed uint64, i int, tier string) *scen.Scenario {
 				ts.Ns = int64(r.Intn(1000)) * 1000
 			}
 			sc.Setup = append(sc.Setup, scen.Op{Op: "write_thru", L: 1, Lvl: 4, T: ts, Msg: "m" + t, Tok: t, Probe: true})
+			if r.Chance(1, 3) {
+				// a burst: more records in the same Unix second, other zones and sub-second parts
+				for q := r.Range(1, 3); q > 0; q-- {
+					k++
+					t2 := tok(100 + k)
+					ts2 := &scen.TimeSpec{S: ts.S, Ns: int64(r.Intn(1000000000)), Zone: scen.Pick(r, c16Zones)}
+					sc.Setup = append(sc.Setup, scen.Op{Op: "write_thru", L: 1, Lvl: 4, T: ts2, Msg: "m" + t2, Tok: t2, Probe: true})
+				}
+			}
 		} else {
 			sc.Setup = append(sc.Setup, scen.Op{Op: "log", L: 1, Entry: scen.Pick(r, []string{"Info", "Warn", "InfoContext", "LogAttrs", "Infof", "Print"}), Lvl: 4, Msg: "m" + t, Tok: t, Probe: true})
 		}
